@@ -349,9 +349,17 @@ func RecursionFamily() []struct {
 			defs = append(defs, st(fmt.Sprintf("Cyc%d", i), f("alpha", Simple("int32")), f("next", Simple(fmt.Sprintf("Cyc%d", (i+1)%n)))))
 		}
 		out = append(out, item{fmt.Sprintf("struct-cycle-%d", n), &Schema{Defs: defs}, true})
-		// the same cycle with an outside struct declared first that embeds it
-		defs2 := append([]*Def{st("Outer", f("root", Simple("Cyc0")))}, defs...)
-		out = append(out, item{fmt.Sprintf("struct-cycle-%d-with-outer-first", n), &Schema{Defs: defs2}, true})
+		// the same cycle with an outside struct that embeds it: declared first or last, with a
+		// name that sorts before or after the cycle members, entering at the first or last member
+		for _, on := range []string{"Aaa", "Outer", "Zzz"} {
+			for _, entry := range []int{0, n - 1} {
+				o := st(on, f("root", Simple(fmt.Sprintf("Cyc%d", entry))))
+				out = append(out, item{fmt.Sprintf("struct-cycle-%d-with-%s-first-entry%d", n, on, entry), &Schema{Defs: append([]*Def{o}, defs...)}, true})
+				out = append(out, item{fmt.Sprintf("struct-cycle-%d-with-%s-last-entry%d", n, on, entry), &Schema{Defs: append(append([]*Def{}, defs...), o)}, true})
+			}
+		}
+		// two outside structs chained into the cycle
+		out = append(out, item{fmt.Sprintf("struct-cycle-%d-with-chain-in", n), &Schema{Defs: append([]*Def{st("Aaa", f("x", Simple("Bbb"))), st("Bbb", f("y", Simple("Cyc1")))}, defs...)}, true})
 		// reversed declaration order
 		var rev []*Def
 		for i := n - 1; i >= 0; i-- {
